@@ -19,8 +19,17 @@ def _strip_lifetimes(s):
     return s
 
 
+# thorough tier: `./check` re-runs a property's rules over another build configuration by mapping the
+# configuration the rules ask for (K1) to it; a configuration mapped to None does not exist in the overlay.
+CONFIG_OVERRIDE = {}
+
+
 class Program:
     def __init__(self, config="K1", crates=None, prefer_features=("std",)):
+        if crates is None and config in CONFIG_OVERRIDE:
+            config = CONFIG_OVERRIDE[config]
+            if config is None:
+                raise AnchorMissing("this configuration is not part of the overlay")
         if crates is None:
             crates, th = _facts.load(config)
             self.tree_hash = th
